@@ -11,12 +11,14 @@ package main
 import (
 	"bufio"
 	"fmt"
+	"os"
 	"runtime"
 	"sort"
 	"strconv"
 	"strings"
 	"sync"
 	"sync/atomic"
+	"syscall"
 	"time"
 
 	"git.metabarcoding.org/obitools/obitools4/obitools4/pkg/obiformats"
@@ -47,11 +49,16 @@ type c03Case struct {
 	MinSize int          `json:"minsize"` // fragments
 	Length  int          `json:"length"`  // fragments
 	Overlap int          `json:"overlap"` // fragments
+	Paired  bool         `json:"paired"`  // the source streams carry paired records (mate of id = c03Mate(id))
+	Frac    float64      `json:"frac"`    // limitmemory
+	Trace   bool         `json:"trace"`   // record the protocol events (Add/Done/Wait/Push/Close/End)
+	Quiet   int          `json:"quiet"`   // ms without a new event before the recording stops (default 3)
 }
 
 type c03Out struct {
 	Key     int        `json:"key"`
 	Closed  bool       `json:"closed"`
+	Paired  bool       `json:"paired"` // IsPaired() of the output iterator
 	Batches []c03Batch `json:"batches"`
 }
 
@@ -62,9 +69,11 @@ type c03Obs struct {
 	Panic string   `json:"panic,omitempty"`
 	Outs  []c03Out `json:"outs"`
 	News  []int    `json:"news,omitempty"` // distribute: keys in the order they were announced
+	Trace [][4]int `json:"trace,omitempty"` // (goroutine, iterator, kind, n) in log order
 }
 
 var c03Fatal atomic.Bool
+var c03RestoreStderr func()
 
 func c03Seq(id int) *obiseq.BioSequence {
 	return obiseq.NewBioSequence("r"+strconv.Itoa(id), []byte("acgtacgt"), "")
@@ -81,15 +90,24 @@ func c03LongSeq(id int) *obiseq.BioSequence {
 }
 
 var c03Long = false
+var c03Paired = false
+
+// c03Mate: id of the mate of record id in paired cases
+func c03Mate(id int) int { return 1000 + (id*7+id/3)%50 }
 
 func c03Slice(ids []int) obiseq.BioSequenceSlice {
 	s := make(obiseq.BioSequenceSlice, 0, len(ids)+1)
 	for _, id := range ids {
+		var r *obiseq.BioSequence
 		if c03Long {
-			s = append(s, c03LongSeq(id))
+			r = c03LongSeq(id)
 		} else {
-			s = append(s, c03Seq(id))
+			r = c03Seq(id)
 		}
+		if c03Paired {
+			r.PairTo(c03Seq(c03Mate(id)))
+		}
+		s = append(s, r)
 	}
 	return s
 }
@@ -112,6 +130,9 @@ func c03Id(s *obiseq.BioSequence) int {
 // c03Source builds an iterator whose producer pushes the batches of h in the given (arrival) order.
 func c03Source(h []c03Batch) obiiter.IBioSequence {
 	it := obiiter.MakeIBioSequence()
+	if c03Paired {
+		it.MarkAsPaired()
+	}
 	it.Add(1)
 	go func() {
 		for _, b := range h {
@@ -130,7 +151,8 @@ type c03Collector struct {
 }
 
 func (c *c03Collector) drain(key int, it obiiter.IBioSequence, paired bool) {
-	o := &c03Out{Key: key, Batches: []c03Batch{}}
+	o := &c03Out{Key: key, Batches: []c03Batch{}, Paired: it.IsPaired()}
+	paired = paired || c03Paired
 	c.mu.Lock()
 	c.outs = append(c.outs, o)
 	c.mu.Unlock()
@@ -189,6 +211,15 @@ func c03Run(c c03Case) (obs c03Obs) {
 	obs = c03Obs{Kind: "ok", Outs: []c03Out{}}
 	c03Fatal.Store(false)
 	c03Long = c.Op == "fragments"
+	c03Paired = c.Paired
+	if c.Trace {
+		obiiter.VerifTraceStart()
+		defer func() {
+			for _, e := range obiiter.VerifTraceStop() {
+				obs.Trace = append(obs.Trace, [4]int{e.Gid, e.It, e.Kind, e.N})
+			}
+		}()
+	}
 	col := &c03Collector{}
 	var newsMu sync.Mutex
 	news := []int{}
@@ -215,7 +246,7 @@ func c03Run(c c03Case) (obs c03Obs) {
 			return r
 		}
 		nw := c.NW
-		if nw < 1 {
+		if nw < 1 && c.Op != "filteron" && c.Op != "filterand" && c.Op != "fragments" {
 			nw = 1
 		}
 		switch c.Op {
@@ -302,6 +333,90 @@ func c03Run(c c03Case) (obs c03Obs) {
 		case "pairto":
 			obioptions.SetBatchSize(c.Size)
 			col.drain(0, src(0).PairTo(src(1)), true)
+		case "split":
+			// nw consumers share the channel of one source through Split()
+			it := src(0)
+			clones := []obiiter.IBioSequence{it}
+			for i := 1; i < nw; i++ {
+				clones = append(clones, it.Split())
+			}
+			for i, cl := range clones {
+				col.drain(i, cl, false)
+			}
+		case "speed":
+			// Speed is the identity unless stderr is a character device: give it /dev/null
+			null, err := os.OpenFile("/dev/null", os.O_WRONLY, 0)
+			if err != nil {
+				panic(err)
+			}
+			saved, err := syscall.Dup(2)
+			if err != nil {
+				panic(err)
+			}
+			syscall.Dup2(int(null.Fd()), 2)
+			it := src(0).Speed("verif")
+			c03RestoreStderr = func() { syscall.Dup2(saved, 2); syscall.Close(saved); null.Close() }
+			col.drain(0, it, false)
+		case "limitmemory":
+			col.drain(0, src(0).LimitMemory(c.Frac), false)
+		case "load", "load_sorted":
+			it := src(0)
+			if c.Op == "load_sorted" {
+				it = it.SortBatches()
+			}
+			res := obiiter.MakeIBioSequence()
+			res.Add(1)
+			go func() {
+				_, sl := it.Load()
+				res.Push(obiiter.MakeBioSequenceBatch("load", 0, sl))
+				res.Done()
+			}()
+			go res.WaitAndClose()
+			col.drain(0, res, false)
+		case "completefile":
+			col.drain(0, src(0).CompleteFileIterator(), false)
+		case "completefile_sorted":
+			col.drain(0, src(0).SortBatches().CompleteFileIterator(), false)
+		case "condworker":
+			col.drain(0, src(0).MakeIConditionalWorker(c03Pred(c.Mod2), c03Worker(c.Mod, c.Yield), false, nw), false)
+		case "condworker_sorted":
+			col.drain(0, src(0).MakeIConditionalWorker(c03Pred(c.Mod2), c03Worker(c.Mod, c.Yield), false, nw).SortBatches(), false)
+		case "sliceworker":
+			sw := obiseq.SeqToSliceConditionalWorker(nil, c03Worker(c.Mod, c.Yield), false)
+			col.drain(0, src(0).MakeISliceWorker(sw, false, nw).SortBatches(), false)
+		case "pairedwith":
+			col.drain(0, src(0).PairedWith(), false)
+		case "distribute_rebatch":
+			// the dispatcher path of obidistribute: every announced output is taken at once by its own
+			// goroutine (WriterDispatcher) and goes through an order-sensitive consumer
+			mod := c.Mod
+			if mod < 1 {
+				mod = 1
+			}
+			cl := &obiseq.BioSequenceClassifier{
+				Code:  func(s *obiseq.BioSequence) int { return c03Id(s) % mod },
+				Value: func(k int) string { return strconv.Itoa(k) },
+				Reset: func() {},
+				Type:  "verif",
+			}
+			d := src(0).Distribute(cl, c.Size)
+			sz2 := c.Mod2
+			if sz2 < 1 {
+				sz2 = 1
+			}
+			newsDone = make(chan struct{})
+			go func() {
+				for k := range d.News() {
+					it, err := d.Outputs(k)
+					newsMu.Lock()
+					news = append(news, k)
+					newsMu.Unlock()
+					if err == nil {
+						col.drain(k, it.Rebatch(sz2), false)
+					}
+				}
+				close(newsDone)
+			}()
 		default:
 			panic("unknown op " + c.Op)
 		}
@@ -342,9 +457,30 @@ wait:
 		}
 	}
 	obs.Fatal = c03Fatal.Load()
+	if c.Trace && obs.Term && !obs.Fatal {
+		// goroutines that no output waits for (the reverse side of PairTo, closers) may still be finishing:
+		// wait until no event has been logged for c.Quiet ms
+		need := c.Quiet
+		if need <= 0 {
+			need = 3
+		}
+		last, quiet := obiiter.VerifTraceLen(), 0
+		for i := 0; i < 200+10*need && quiet < need; i++ {
+			time.Sleep(time.Millisecond)
+			if n := obiiter.VerifTraceLen(); n == last {
+				quiet++
+			} else {
+				last, quiet = n, 0
+			}
+		}
+	}
+	if c03RestoreStderr != nil {
+		c03RestoreStderr()
+		c03RestoreStderr = nil
+	}
 	col.mu.Lock()
 	for _, o := range col.outs {
-		cp := c03Out{Key: o.Key, Closed: o.Closed, Batches: append([]c03Batch{}, o.Batches...)}
+		cp := c03Out{Key: o.Key, Closed: o.Closed, Paired: o.Paired, Batches: append([]c03Batch{}, o.Batches...)}
 		obs.Outs = append(obs.Outs, cp)
 	}
 	col.mu.Unlock()
